@@ -217,4 +217,159 @@ theorem touch_leasedOf (id : Nat) (f : Conn → Conn) (a : Nat) (ls : List Lease
     | none => simp [ih]
     | some c => simp only [Option.map_some, Option.isSome_some, Bool.and_true]; split <;> simp [ih]
 
+
+/-! ### exclusivity: socket ids per authority -/
+
+def leasedIds (a : Nat) (ls : List Lease) : List Nat :=
+  (ls.filter fun l => decide (l.auth = a)).filterMap fun l => l.conn.map (·.id)
+
+def idsOf (a : Nat) (p : Pool) : List Nat := (lookup a p.avail).map (·.id) ++ leasedIds a p.leases
+
+theorem popUsable_sublist (cfg : Cfg) (now : Nat) (cs : List Conn) (c : Conn) (rest closed : List Conn)
+    (h : popUsable cfg now cs = (some c, rest, closed)) : (c :: rest).Sublist cs := by
+  induction cs generalizing rest closed with
+  | nil => simp [popUsable] at h
+  | cons d ds ih =>
+    unfold popUsable at h
+    by_cases hi : ineligible cfg now d = true
+    · simp only [hi, if_true] at h
+      generalize hp : popUsable cfg now ds = r at h
+      obtain ⟨r1, r2, r3⟩ := r
+      simp only [Prod.mk.injEq] at h
+      obtain ⟨h1, h2, h3⟩ := h
+      subst h1; subst h2
+      exact List.Sublist.cons _ (ih _ _ hp)
+    · have hi' : ineligible cfg now d = false := by simpa using hi
+      simp only [hi', Bool.false_eq_true, if_false] at h
+      cases hc : check d with
+      | live =>
+        simp only [hc, Prod.mk.injEq, Option.some.injEq] at h
+        obtain ⟨h1, h2, _⟩ := h
+        subst h1; subst h2
+        exact List.Sublist.refl _
+      | tainted =>
+        simp only [hc] at h
+        generalize hp : popUsable cfg now ds = r at h
+        obtain ⟨r1, r2, r3⟩ := r
+        simp only [Prod.mk.injEq] at h
+        obtain ⟨h1, h2, h3⟩ := h
+        subst h1; subst h2
+        exact List.Sublist.cons _ (ih _ _ hp)
+      | skip =>
+        simp only [hc] at h
+        generalize hp : popUsable cfg now ds = r at h
+        obtain ⟨r1, r2, r3⟩ := r
+        simp only [Prod.mk.injEq] at h
+        obtain ⟨h1, h2, h3⟩ := h
+        subst h1; subst h2
+        exact List.Sublist.cons _ (ih _ _ hp)
+
+theorem leasedIds_append (a : Nat) (xs ys : List Lease) :
+    leasedIds a (xs ++ ys) = leasedIds a xs ++ leasedIds a ys := by
+  simp [leasedIds, List.filter_append, List.filterMap_append]
+
+theorem leasedIds_single (b a : Nat) (c : Conn) :
+    leasedIds b [⟨a, some c⟩] = if a = b then [c.id] else [] := by
+  by_cases h : a = b <;> simp [leasedIds, h]
+
+theorem leasedIds_eraseIdx (a : Nat) (ls : List Lease) (i : Nat) :
+    (leasedIds a (ls.eraseIdx i)).Sublist (leasedIds a ls) := by
+  unfold leasedIds
+  exact ((List.eraseIdx_sublist ls i).filter _).filterMap _
+
+theorem leasedIds_setAt_other (b : Nat) (ls : List Lease) (i : Nat) (a : Nat) (c : Conn)
+    (h : ls[i]? = some ⟨a, some c⟩) (hne : a ≠ b) :
+    leasedIds b (setAt ls i ⟨a, none⟩) = leasedIds b ls := by
+  induction ls generalizing i with
+  | nil => simp at h
+  | cons l ls ih =>
+    cases i with
+    | zero =>
+      simp only [List.getElem?_cons_zero, Option.some.injEq] at h
+      subst h
+      simp [setAt, leasedIds, List.filter_cons, hne]
+    | succ n =>
+      simp only [List.getElem?_cons_succ] at h
+      have := ih n h
+      simp only [setAt, leasedIds, List.filter_cons] at this ⊢
+      split
+      · simp only [List.filterMap_cons]
+        split
+        · exact this
+        · rw [this]
+      · exact this
+
+theorem leasedIds_setAt_same (ls : List Lease) (i : Nat) (a : Nat) (c : Conn)
+    (h : ls[i]? = some ⟨a, some c⟩) :
+    ∃ l1 l2, leasedIds a ls = l1 ++ c.id :: l2 ∧ leasedIds a (setAt ls i ⟨a, none⟩) = l1 ++ l2 := by
+  induction ls generalizing i with
+  | nil => simp at h
+  | cons l ls ih =>
+    cases i with
+    | zero =>
+      simp only [List.getElem?_cons_zero, Option.some.injEq] at h
+      subst h
+      exact ⟨[], leasedIds a ls, by simp [leasedIds, List.filter_cons], by simp [setAt, leasedIds, List.filter_cons]⟩
+    | succ n =>
+      simp only [List.getElem?_cons_succ] at h
+      obtain ⟨l1, l2, h1, h2⟩ := ih n h
+      by_cases hl : l.auth = a
+      · cases hc : l.conn with
+        | none =>
+          refine ⟨l1, l2, ?_, ?_⟩
+          · simp only [leasedIds, List.filter_cons, hl, decide_true, if_true, List.filterMap_cons, hc, Option.map_none] at h1 ⊢
+            exact h1
+          · simp only [setAt, leasedIds, List.filter_cons, hl, decide_true, if_true, List.filterMap_cons, hc, Option.map_none] at h2 ⊢
+            exact h2
+        | some d =>
+          refine ⟨d.id :: l1, l2, ?_, ?_⟩
+          · simp only [leasedIds, List.filter_cons, hl, decide_true, if_true, List.filterMap_cons, hc, Option.map_some] at h1 ⊢
+            simp [h1]
+          · simp only [setAt, leasedIds, List.filter_cons, hl, decide_true, if_true, List.filterMap_cons, hc, Option.map_some] at h2 ⊢
+            simp [h2]
+      · refine ⟨l1, l2, ?_, ?_⟩
+        · simp only [leasedIds, List.filter_cons, hl, decide_false, Bool.false_eq_true, if_false] at h1 ⊢
+          exact h1
+        · simp only [setAt, leasedIds, List.filter_cons, hl, decide_false, Bool.false_eq_true, if_false] at h2 ⊢
+          exact h2
+
+theorem touch_idle_ids (id : Nat) (f : Conn → Conn) (hf : ∀ c, (f c).id = c.id) (a : Nat)
+    (m : List (Nat × List Conn)) :
+    (lookup a (m.map fun (k, cs) => (k, cs.map fun c => if c.id = id then f c else c))).map (·.id)
+      = (lookup a m).map (·.id) := by
+  induction m with
+  | nil => simp [lookup]
+  | cons e rest ih =>
+    obtain ⟨k, w⟩ := e
+    by_cases h : k = a
+    · simp only [List.map_cons, lookup, h, if_true, List.map_map]
+      apply List.map_congr_left
+      intro c _
+      simp only [Function.comp]
+      split
+      · exact hf c
+      · rfl
+    · simp only [List.map_cons, lookup, h, if_false]
+      exact ih
+
+theorem touch_leased_ids (id : Nat) (f : Conn → Conn) (hf : ∀ c, (f c).id = c.id) (a : Nat) (ls : List Lease) :
+    leasedIds a (ls.map fun l => { l with conn := l.conn.map fun c => if c.id = id then f c else c })
+      = leasedIds a ls := by
+  induction ls with
+  | nil => simp [leasedIds]
+  | cons l ls ih =>
+    simp only [leasedIds, List.map_cons, List.filter_cons] at ih ⊢
+    split
+    · simp only [List.filterMap_cons]
+      cases hc : l.conn with
+      | none => simp only [Option.map_none]; exact ih
+      | some c =>
+        simp only [Option.map_some]
+        have : (if c.id = id then f c else c).id = c.id := by
+          split
+          · exact hf c
+          · rfl
+        rw [this, ih]
+    · exact ih
+
 end ActixModel.Pool
